@@ -278,14 +278,14 @@ class Reader:
                 self.pos += 1
                 count += 1
             if count == 0:
-                rule.soft.append("empty description")
+                raise Ambiguous("empty description")
         while self.peek(raw=True) == "EXAMPLE":
             self._read_example(rule)
         if self.peek(raw=True) == "RELATED":
             self.pos += 1
             rule.related = self._read_ids("related profile")
             if len(set(rule.related)) != len(rule.related):
-                rule.soft.append("repeated related profile")
+                raise Ambiguous("repeated related profile")
             for name in rule.related:
                 self._profile(name, "related")
         if self.peek(raw=True) == "SUPERIORS":
@@ -327,11 +327,9 @@ class Reader:
         span = self.take()
         parts = span.split("-")
         if len(parts) != 2 or not all(part and set(part) <= _DIGITS for part in parts):
-            if classify(span) in ("marker", "kw") or span in PUNCT:
-                raise IllFormed("syntax", f"example range {span!r}")
             raise IllFormed("syntax", f"example range {span!r}")
         if int(parts[0]) > int(parts[1]):
-            raise IllFormed("syntax", "example range backwards")
+            raise Ambiguous("example range backwards")
         while self.peek(raw=True) is not None and self.kind(raw=True) != "marker":
             self.pos += 1
         rule.soft.append("example")
@@ -458,13 +456,14 @@ class Reader:
 
 def _reject_repeats(operands: List[Any]) -> None:
     """repeated operand of one and/or chain: the same operand text twice is ill-formed; operands
-       that only differ by redundant brackets are not settled by the documentation."""
+       that only differ by redundant brackets or by the listing order inside minimum([...]) are
+       not settled by the documentation."""
     texts = [render(op) for op in operands]
     if len(set(texts)) != len(texts):
         raise IllFormed("repeated-operand", " | ".join(texts))
     loose = [render(strip_redundant(op)) for op in operands]
     if len(set(loose)) != len(loose):
-        raise Ambiguous("operands equal up to redundant brackets")
+        raise Ambiguous("operands equal up to redundant brackets / listing order")
 
 
 def strip_redundant(node: Any) -> Any:
@@ -483,6 +482,8 @@ def strip_redundant(node: Any) -> Any:
         return ["cds", node[1], strip_redundant(node[2])]
     if tag in ("and", "or"):
         return [tag, [strip_redundant(op) for op in node[1]]]
+    if tag == "min":
+        return ["min", node[1], node[2], sorted(node[3])]    # the listing order carries no meaning
     return node
 
 
